@@ -3,6 +3,7 @@ returns the truth value; a missing anchor fails closed."""
 import json, os, re
 from core import *
 from core import _SignRel as core_SignRel
+from core import _place_has_field
 import sends as sendsmod
 
 
@@ -260,8 +261,8 @@ class Ctx:
             for (g, bb, line, kind) in self.prog.field_writes(adt, f_):
                 if g.crate != crate or kind == 'construct' or NEUTRAL.search(g.id):
                     continue
-                if kind == 'mutref':
-                    n_mut += 1
+                if kind == 'mutref' or _self_dependent_write(self.prog, g, bb, adt, f_):
+                    n_mut += 1         # `x.f += v` and its re-spelling `x.f = &x.f + v` are the same in-place update
                 else:
                     n_asg += 1
             now[fld] = [n_mut, n_asg]
@@ -281,7 +282,7 @@ class Ctx:
                 self.rep.ob(rule, '%s:%s' % (key, fld), False, '%s: field %s has no frozen count (fail closed: regenerate tables/write_sites.json deliberately)' % (what, fld))
                 ok = False
             else:
-                good = n[0] >= want[0] and (n[1] >= 1 or want[1] == 0)
+                good = n[0] >= want[0] and (n[1] >= 1 or want[1] == 0 or n[0] > want[0])
                 ok = ok and good
                 self.rep.ob(rule, '%s:%s:%s' % (key, crate.replace('fil_actor_', ''), fld), good,
                             '%s: %s has %d in-place update site(s) and %d assignment(s) in %s, the reviewed tree has %d and %d%s' % (
@@ -1091,6 +1092,22 @@ def _bool_result_blocks(h, value):
         if t[0] == 'call' and t[3][0] == 0 and not t[3][1]:
             out.append(bi)
     return out
+
+
+def _self_dependent_write(prog, g, bb, adt, field):
+    """the value written to (adt, field) in block bb is computed from the field's own previous value"""
+    pat = 'F:%s.%s' % (adt, field)
+    b = g.blocks[bb]
+    for st in b['s']:
+        if st[0] == '=' and _place_has_field(st[1], adt, field, last_only=False):
+            if has_atom(prog.narrow.rvalue(g, st[2]), pat):
+                return True
+    t = b['t']
+    if t[0] == 'call' and _place_has_field(t[3], adt, field, last_only=False):
+        c = g.call_at(bb)
+        if c is not None and any(has_atom(prog.narrow.operand(g, a), pat) for a in c.args):
+            return True
+    return False
 
 
 FREEZE_TOL = {}
